@@ -34,6 +34,7 @@ impl RequestHandler<DocumentSymbolRequest> for DocumentSymbolRequestHandler {
                         codegen,
                         filename: file.file.name(),
                         recurse: false,
+                        import_stack: vec![],
                     };
                     let docsyms = emitter.emit_document_symbols(&file.tokens, None);
                     let document_symbols = docsyms
@@ -62,6 +63,7 @@ impl RequestHandler<WorkspaceSymbol> for WorkspaceSymbolHandler {
                         codegen,
                         filename: file.file.name(),
                         recurse: true,
+                        import_stack: vec![],
                     };
                     let docsyms = emitter.emit_document_symbols(&file.tokens, None);
                     let workspace_symbols = docsyms
@@ -133,6 +135,8 @@ struct DocSymEmitter<'a> {
     codegen: Arc<Mutex<CodegenContext>>,
     filename: &'a str,
     recurse: bool,
+    /// The files we are currently emitting symbols for (to be able to deal with circular imports)
+    import_stack: Vec<String>,
 }
 
 impl<'a> DocSymEmitter<'a> {
@@ -166,13 +170,21 @@ impl<'a> DocSymEmitter<'a> {
                 let mut result = vec![];
                 if self.recurse {
                     if let Some(file) = self.tree.try_get_file(&resolved_path) {
-                        let emitter = DocSymEmitter {
-                            tree: self.tree,
-                            codegen: self.codegen.clone(),
-                            filename: file.file.name(),
-                            recurse: self.recurse,
-                        };
-                        result.extend(emitter.emit_document_symbols(&file.tokens, None));
+                        // A circular import is an error, but it should not make us recurse forever
+                        let is_circular = file.file.name() == self.filename
+                            || self.import_stack.iter().any(|f| f == file.file.name());
+                        if !is_circular {
+                            let mut import_stack = self.import_stack.clone();
+                            import_stack.push(self.filename.to_string());
+                            let emitter = DocSymEmitter {
+                                tree: self.tree,
+                                codegen: self.codegen.clone(),
+                                filename: file.file.name(),
+                                recurse: self.recurse,
+                                import_stack,
+                            };
+                            result.extend(emitter.emit_document_symbols(&file.tokens, None));
+                        }
                     }
                 }
 
